@@ -1231,7 +1231,9 @@ def do_round(
         raise FilterArgumentError("method must be common, ceil or floor")
 
     if method == "common":
-        return round(value, precision)
+        # round() of an int (or Decimal, Fraction) returns that type; the
+        # documented result is a float for every input, like ceil and floor.
+        return float(round(value, precision))
 
     func = getattr(math, method)
     return t.cast(float, func(value * (10**precision)) / (10**precision))
